@@ -8,6 +8,22 @@
 //@ item ModifyKind
 //@ item RemoveKind
 //@ item EventKind
+//@ item FsEventKind
+//@ item FsEventKind::from
+//@ header
+fn from(value: EventKind) -> (r: Self)
+    ensures
+        // the `simple` field written next to `full` is the class of the kind
+        (r is Access) == (value is Access) && (r is Create) == (value is Create) && (r is Modify) == (value is Modify) && (r is Remove) == (value is Remove)
+            && (r is Other) == (value is Any || value is Other), // OBL:C16.fs_kind.simple_is_the_class_of_the_kind
+//@ item simple_to_kind
+//@ header
+fn simple_to_kind(simple: FsEventKind) -> (r: EventKind)
+    ensures
+        // a tag of kind fs that carries only `simple` parses to the generic kind of that class (never to a kind of another class)
+        (simple is Access ==> r == EventKind::Access(AccessKind::Any)) && (simple is Create ==> r == EventKind::Create(CreateKind::Any))
+            && (simple is Modify ==> r == EventKind::Modify(ModifyKind::Any)) && (simple is Remove ==> r == EventKind::Remove(RemoveKind::Any))
+            && (simple is Other ==> r == EventKind::Other), // OBL:C16.fs_kind.simple_alone_parses_to_the_generic_kind_of_its_class
 //@ item parse_full
 //@ header
 fn parse_full(full: &StrS) -> (r: EventKind)
